@@ -14,7 +14,13 @@ from .. import tlc, pipeline_common as pc
 R = [7, 8, 9]
 
 
-def build(style, n, ret, seen):
+def pub(case_or_rename, i):
+    """public name of argument i (0-based)"""
+    r = case_or_rename['rename'] if isinstance(case_or_rename, dict) else case_or_rename
+    return 'from' if r and i == 0 else 'a%d' % (i + 1)
+
+
+def build(style, n, ret, seen, rename=False):
     """-> (application, method name).  seen: list collecting the args of each invocation"""
     from spyne import Application, Service, srpc, Integer, Fault, ComplexModel, Iterable, Ignored
     from spyne.protocol.xml import XmlDocument
@@ -31,14 +37,17 @@ def build(style, n, ret, seen):
         if ret == 'two': return R[0], R[1]
         if ret == 'three': return R[0], R[1], R[2]
         if ret == 'ignored': return Ignored(R[0])
+        if ret == 'ignored_two': return Ignored(R[0])
         if ret == 'fault': raise Fault('Client.Custom', 'custom')
         if ret == 'exc': raise ValueError('boom')
     returns = {'none': None, 'one': Integer, 'two': (Integer, Integer), 'three': (Integer, Integer, Integer),
                'gen': Iterable(Integer), 'ignored': Integer, 'fault': Integer, 'exc': Integer,
-               'cplx': Res, 'ignored_cplx': Res}[ret]
+               'cplx': Res, 'ignored_cplx': Res, 'ignored_two': (Integer, Integer)}[ret]
     kw = {}
     if returns is not None:
         kw['_returns'] = returns
+    if rename:
+        kw['_in_variable_names'] = {'a1': 'from'}
     if style == 'out_bare':
         kw['_body_style'] = 'out_bare'
     elif style in ('empty', 'bare'):
@@ -89,12 +98,17 @@ def norm(v):
     if isinstance(v, types.GeneratorType) or hasattr(v, '__next__'):
         v = list(v)
     if isinstance(v, (list, tuple)):
-        return ['value', [x if isinstance(x, (int, str)) or x is None else '?%s' % type(x).__name__ for x in v]]
+        if v and all(x is None for x in v):
+            return ['value', []]            # nothing for every declared value: the empty response
+        return ['value', [x if isinstance(x, (int, str)) else ('?None' if x is None else '?%s' % type(x).__name__) for x in v]]
     if isinstance(v, int):
         return ['value', [v]]
     # a response wrapper object of the Spyne client: its members in order
     try:
-        return ['value', [x if isinstance(x, (int, str)) or x is None else '?%s' % type(x).__name__ for x in list(v)]]
+        l = list(v)
+        if l and all(x is None for x in l):
+            return ['value', []]
+        return ['value', [x if isinstance(x, (int, str)) else ('?None' if x is None else '?%s' % type(x).__name__) for x in l]]
     except Exception:
         return ['value', ['?%s' % type(v).__name__]]
 
@@ -111,7 +125,7 @@ def direct(app, case, seen):
     from spyne.server.null import NullServer
     ns = NullServer(app)
     pos, kw = [], {}
-    names = ['a1', 'a2', 'a3']
+    names = [pub(case, i) for i in range(3)]
     for i, m in enumerate(case['modes']):
         v, alt = 10 * (i + 1), 10 * (i + 1) + 5
         if m == 'pos': pos.append(v)
@@ -140,7 +154,7 @@ def wire_json(app, case, seen):
     app2 = Application(app.services, 'tns', in_protocol=JsonDocument(), out_protocol=JsonDocument())
     w = WsgiApplication(app2)
     vals = packed(case)
-    body = json.dumps({'f': {'a%d' % (i + 1): v for i, v in enumerate(vals) if v is not None}}).encode()
+    body = json.dumps({'f': {pub(case, i): v for i, v in enumerate(vals) if v is not None}}).encode()
     del seen[:]
     try:
         status, out = call_wsgi(w, body, 'application/json')
@@ -177,7 +191,7 @@ def wire_xml(app, case, seen):
     from spyne.server.wsgi import WsgiApplication
     w = WsgiApplication(app)
     vals = packed(case)
-    inner = ''.join('<tns:a%d>%d</tns:a%d>' % (i + 1, v, i + 1) for i, v in enumerate(vals) if v is not None)
+    inner = ''.join('<tns:%s>%d</tns:%s>' % (pub(case, i), v, pub(case, i)) for i, v in enumerate(vals) if v is not None)
     body = ('<tns:f xmlns:tns="tns">%s</tns:f>' % inner).encode()
     del seen[:]
     try:
@@ -226,7 +240,7 @@ def run(ctx):
         seen = []
         n = len(c['modes'])
         try:
-            app = build(c['style'], n, c['ret'], seen)
+            app = build(c['style'], n, c['ret'], seen, c['rename'])
         except Exception as e:
             ctx.violation('cannot-build|style=%s|n=%d|ret=%s|%s' % (c['style'], n, c['ret'], type(e).__name__),
                           'application for %s cannot be built: %s' % (c, e), {'case': c})
@@ -264,7 +278,7 @@ def run(ctx):
                 rec = recs[p[1] - 1]
                 c = rec['case']
                 cl = sorted(p[2])
-                ctx.violation('%s|wire=%s|style=%s|ret=%s|modes=%s' % ('+'.join(cl), rec['wire'], c['style'], c['ret'], ','.join(c['modes']) or '-'),
+                ctx.violation('%s|wire=%s|style=%s|ret=%s|modes=%s%s' % ('+'.join(cl), rec['wire'], c['style'], c['ret'], ','.join(c['modes']) or '-', '|renamed' if c['rename'] else ''),
                               'clauses %s fail: direct %s args %s; wire(%s) %s args %s' % (
                                   cl, rec['obs']['dres'], rec['obs']['dargs'], rec['wire'], rec['obs']['wres'], rec['obs']['wargs']),
                               {'case': c, 'observation': rec['obs'], 'wire': rec['wire']})
